@@ -87,10 +87,20 @@ StuckFix(S, w) ==
       S2 == {p \in S : SetOf(H(p)[7]) \subseteq S /\ (H(p)[5] \/ H(p)[7] # <<>>)}
   IN IF S2 = S THEN S ELSE StuckFix(S2, w)
 StuckSet(w) == StuckFix({w.holders[i][1] : i \in {j \in 1..Len(w.holders) : w.holders[j][3] \in {"read", "write"}}}, w)
+\* The library may also be waiting in read() of a pipe or in poll() on several (parent_io = one <<inode, children
+\* holding the other end, the library's own process holds the other end too>> per pipe it waits on): nothing can
+\* ever arrive when, for every one of them, the other end is held only by children of the stuck set (or by the
+\* library itself) -- and the stuck set is stuck on a pipe end the library holds.
 ProvenDeadlock(w) ==
-  LET S == StuckSet(w) IN
-  /\ \E c \in S : c \in SetOf(w.parent_waits)
-  /\ \E i \in 1..Len(w.holders) : w.holders[i][1] \in S /\ w.holders[i][5]
+  LET S == StuckSet(w)
+      ByParent == \E i \in 1..Len(w.holders) : w.holders[i][1] \in S /\ w.holders[i][5]
+  IN
+  \/ /\ \E c \in S : c \in SetOf(w.parent_waits)
+     /\ ByParent
+  \/ /\ w.parent_io # <<>>
+     /\ \A k \in 1..Len(w.parent_io) : /\ SetOf(w.parent_io[k][2]) \subseteq S
+                                       /\ (w.parent_io[k][2] # <<>> \/ w.parent_io[k][3])
+     /\ ByParent \/ \E k \in 1..Len(w.parent_io) : w.parent_io[k][3]
 \* or: the library is blocked reading a pipe (the launch-status channel) that a child keeps open above fd 2
 ProvenLeakHang(w) ==
   \E i \in 1..Len(w.holders) : SetOf(w.holders[i][2]) \cap libpipes # {}
@@ -173,6 +183,8 @@ PipelineVerdict(post, children) ==
     \* a pipeline that hangs although every pipe is where it belongs would be C12's business; one that hangs because
     \* of who holds its pipes is a wiring fault
     \cup V(FailAt < 0 => ~(Hung /\ HangExplained), "C13_pipeline_never_finishes")
+    \* C01 names Exec/Pipeline::capture among the communicate-style exchanges that always finish
+    \cup V(FailAt < 0 /\ cfg.term \in {"capture", "communicate"} => ~(Hung /\ HangExplained), "C01_capture_never_finishes")
     \cup V(AllStarted /\ (\A i \in 1..(N - 1) : Link(i)) => FirstStdinOk, "C13_input_reaches_first_stage_only")
     \cup V(AllStarted /\ (\A i \in 1..(N - 1) : Link(i)) => LastStdoutOk, "C13_output_from_last_stage_only")
     \cup V(AllStarted => StderrShared, "C13_shared_stderr")
